@@ -26,6 +26,7 @@ func run(seed uint64, n int, tier string, outDir string) []*Stats {
 
 	cf.AddCases("skip_cases", "Z * Z * Z * toks * bool * Z * list tk", "check_skip", skipperCases(r, st, n))
 	cf.AddCases("enum_cases", "enum_case", "check_enum", enumCases(r, st, n/2))
+	glueGrid(st)
 	glueTyped(r, st, n)
 	glueRuntime(r, st, n/4)
 	knownDefectReplays(st)
